@@ -30,6 +30,9 @@ Inductive robs :=
 | ROk (rst : Z) (rbits recv1 : bitmap) (eq_rr eq_self : bool) (ri16 rri16 : iobs)
       (accx : bool) (recv2 : bitmap) (accy : bool) (rbits3 : bitmap) (acc : list bool) (fwd rev : iobs).
 
+(* a long iteration result in compact form: how many, the first three, the last three, the sum, the position-weighted sum *)
+Inductive sobs := SPanic | SSum (cnt : Z) (first3 last3 : list Z) (sum wsum : Z).
+
 Inductive case :=
   (* b.Marshal() = bytes; NewBit1024().Unmarshal(bytes) = r *)
 | CMarshal (b : bitmap) (bytes : list Z) (r : ures)
@@ -47,7 +50,10 @@ Inductive case :=
 | CRev (tip : bool) (st : Z) (ms : list Z) (x y : Z) (us : list Z) (n : Z) (o : robs)
   (* BigU32s.Reverse / U32BitTips.Reverse: the result list (Start, words) and, after every element of the result was
      modified (a position set, Start changed), the receivers re-read *)
-| CRevs (tip : bool) (bl : list (Z * list Z)) (res recv : list (Z * list Z)).
+| CRevs (tip : bool) (bl : list (Z * list Z)) (res recv : list (Z * list Z))
+  (* dense lists: blocks given as (Start, the few positions that are MISSING) - full and nearly full blocks - in a BigU32s
+     (tip = false) or U32BitTips (tip = true); GetN(n) / RGetN(n) of the list, each in compact form *)
+| CDense (tip : bool) (bl : list (Z * list Z)) (n : Z) (fw rv : sobs).
 
 (* ------------------------------------------------------------------ decidable equalities *)
 Definition iobs_eqb (a b : iobs) : bool :=
@@ -70,6 +76,12 @@ Definition robs_eqb (a b : robs) : bool :=
     (s =? s') && zlist_eqb rb rb' && zlist_eqb r1 r1' && Bool.eqb e1 e1' && Bool.eqb e2 e2' && iobs_eqb i i' && iobs_eqb ri ri'
     && Bool.eqb ax ax' && zlist_eqb r2 r2' && Bool.eqb ay ay' && zlist_eqb rb3 rb3' && list_eqb Bool.eqb ac ac'
     && iobs_eqb f f' && iobs_eqb r r'
+  | _, _ => false
+  end.
+Definition sobs_eqb (a b : sobs) : bool :=
+  match a, b with
+  | SPanic, SPanic => true
+  | SSum c f l s w, SSum c' f' l' s' w' => (c =? c') && zlist_eqb f f' && zlist_eqb l l' && (s =? s') && (w =? w')
   | _, _ => false
   end.
 Definition zpair_eqb (a b : Z * list Z) : bool := (fst a =? fst b) && zlist_eqb (snd a) (snd b).
@@ -107,6 +119,20 @@ Proof.
   | H : list_eqb Bool.eqb _ _ = true |- _ => apply (list_eqb_eq Bool.eqb bool_eqb_eq) in H
   end. subst. reflexivity.
 Qed.
+Lemma sobs_eqb_eq a b : sobs_eqb a b = true -> a = b.
+Proof.
+  destruct a, b; cbn [sobs_eqb]; try discriminate; auto. intros H.
+  repeat match goal with H : _ && _ = true |- _ => apply andb_prop in H; destruct H as [H ?] end.
+  repeat match goal with
+  | H : (_ =? _) = true |- _ => apply Z.eqb_eq in H
+  | H : zlist_eqb _ _ = true |- _ => apply zlist_eqb_eq in H
+  end. subst. reflexivity.
+Qed.
+Lemma sobs_eqb_refl a : sobs_eqb a a = true.
+Proof.
+  destruct a as [|c f l s w]; cbn [sobs_eqb]; [reflexivity|]. rewrite !Z.eqb_refl.
+  assert (H : forall x, zlist_eqb x x = true) by (intros x; apply list_eqb_refl, Z.eqb_refl). now rewrite !H.
+Qed.
 Lemma zpair_eqb_eq a b : zpair_eqb a b = true -> a = b.
 Proof.
   destruct a as [x y], b as [x' y']. unfold zpair_eqb. cbn [fst snd]. intros H.
@@ -133,6 +159,23 @@ Definition model_block_run (mk : option block) (st : block -> Z -> option block)
   | None => BErr
   | Some b => let '(acc, bf) := sets st b us in BOk (start b) acc (gn false bf n) (gn true bf n)
   end.
+
+(* the compact form of a list *)
+Definition wsum_of (l : list Z) : Z := snd (fold_left (fun ia x => (fst ia + 1, snd ia + fst ia * x)) l (1, 0)).
+Fixpoint last3 (l : list Z) : list Z :=
+  match l with
+  | _ :: ((_ :: _ :: _ :: _) as r) => last3 r
+  | _ => l
+  end.
+Definition summ (l : list Z) : sobs :=
+  SSum (zlen l) (firstn 3 l) (last3 l) (fold_left Z.add l 0) (wsum_of l).
+(* List.rev in linear time *)
+Definition frev (l : list Z) : list Z := rev_append l [].
+Lemma frev_rev l : frev l = rev l.
+Proof. unfold frev. symmetry. apply rev_alt. Qed.
+Definition summ_of (o : iobs) : sobs := match o with IPanic => SPanic | IList l => summ l end.
+(* the block with every position except the listed ones: the Reverse of the block holding the listed ones *)
+Definition dense_block (x : Z * list Z) : block := block_reverse (mk_block (fst x) (snd x)).
 
 (* the run behind CRev in the model, for one block type (its Set method and its GetN) *)
 Definition reverse_run (setf : block -> Z -> option block) (gn : bool -> block -> Z -> iobs)
@@ -179,6 +222,10 @@ Definition case_matches (c : case) : bool :=
       forallb blk_ok bl &&
       list_eqb zpair_eqb res (map (fun b => (start b, bits b)) (blocks_reverse blocks)) &&
       list_eqb zpair_eqb recv (map (fun b => (start b, bits b)) blocks)
+  | CDense tip bl n fw rv =>
+      let blocks := map dense_block bl in
+      if tip then forallb tipblk_ok bl && sobs_eqb fw (summ_of (tips_getn false blocks n)) && sobs_eqb rv (summ_of (tips_getn true blocks n))
+      else forallb blk_ok bl && sobs_eqb fw (summ_of (bigs_getn false blocks n)) && sobs_eqb rv (summ_of (bigs_getn true blocks n))
   end.
 
 (* ------------------------------------------------------------------ holds: the property's clauses *)
@@ -259,6 +306,9 @@ Fixpoint revs_holds (bl res recv : list (Z * list Z)) : bool :=
   | _, _, _ => false
   end.
 
+(* the integers of a dense block, ascending: every position of the block except the missing ones *)
+Definition dense_vals (x : Z * list Z) : list Z := map (fun j => j + 1024 * fst x) (complement (snd x)).
+
 Definition case_holds (c : case) : bool :=
   match c with
   | CMarshal b bytes r =>
@@ -285,4 +335,9 @@ Definition case_holds (c : case) : bool :=
        && (iobs_eqb rv (IList (take n (concat (map snd per)))) || iobs_eqb rv (IList (take n (concat (rev (map snd per)))))))
   | CRev tip st ms x y us n o => rev_holds (if tip then same_start_u32 else same_start_i64) st ms x y us n o
   | CRevs tip bl res recv => revs_holds bl res recv
+  | CDense tip bl n fw rv =>
+      (n <? 0) ||
+      (sobs_eqb fw (summ (take n (concat (map dense_vals bl))))
+       && (sobs_eqb rv (summ (take n (concat (map (fun x => frev (dense_vals x)) bl))))
+           || sobs_eqb rv (summ (take n (concat (map (fun x => frev (dense_vals x)) (rev bl)))))))
   end.
